@@ -86,7 +86,7 @@ def relation_scenarios(ctx, quick):
     if not r.ok:
         raise vlib.CheckError("design-level model Relations violates %s (model-only):\n%s" % (r.invariant, (r.error or "")[:1500]))
     strata = collections.defaultdict(list)
-    for e in r.exports:
+    for e in sorted(r.exports, key=lambda x: json.dumps(x, sort_keys=True)):   # TLC's print order depends on worker timing
         last = e["path"][-1]
         strata[(last["op"], last["ok"], last.get("rel"), last.get("tst"), last.get("a"))].append(e)
     rnd = random.Random(ctx.seed)
